@@ -619,6 +619,13 @@ func (w *World) literalOf(v ssa.Value) *literal {
 	case *ssa.UnOp:
 		if x.Op == token.MUL {
 			al, _ = x.X.(*ssa.Alloc)
+			if al != nil {
+				// a variable holding a POINTER to the literal (captured by a closure, so it
+				// lives in its own cell): the literal is what the variable was assigned
+				if _, isPtr := al.Type().Underlying().(*types.Pointer).Elem().Underlying().(*types.Pointer); isPtr {
+					al = nil
+				}
+			}
 		}
 	}
 	if vv, isV := v.(*virtVal); isV && al == nil && strings.HasPrefix(vv.k, "&alloc:") {
